@@ -418,8 +418,8 @@ func (q *QueryRangeService) prepareOutput(ctx context.Context, query string, fro
 
 	plannerCtx := tables.PopulateTableNames(&shared.PlannerContext{
 		IsCluster:  conn.Config.ClusterName != "",
-		From:       time.Unix(fromNs/1000000000, 0),
-		To:         time.Unix(toNs/1000000000, 0),
+		From:       time.Unix(0, fromNs),
+		To:         time.Unix(0, toNs),
 		OrderASC:   forward,
 		Limit:      int64(limit),
 		Ctx:        _ctx,
